@@ -176,7 +176,8 @@ def run(ctx, recs):
                              "morph": {"to": [3, 3, 3], "frm": [2, 2, 2], "lam": lam}})
     # thin plates: a sample of the polytopes squashed along z by 1e-3 and 1e-7 (same combinatorial type), as ConvexPolyhedron and
     # through Polyhedron.sort_faces (merge_faces decides by a tolerance and is not asked about plates)
-    for k, r in enumerate([x for x in chosen if any(len(f["cyc"]) >= 4 for f in x["facets"])][: (12 if quick else 150)]):
+    plates = [x for u, n in (("Prism6", 12), ("Frustum", 8)) for x in cd.emit(ctx, u, n, minpts=n) if len(x["v"]) == n]
+    for k, r in enumerate(plates * (3 if quick else 12) + [x for x in chosen if any(len(f["cyc"]) >= 4 for f in x["facets"])][: (12 if quick else 150)]):
         for lam in ([1, 1000], [1, 10 ** 7]):
             for kind in ("convex", "sort"):
                 jobs.append({"rec": r, "pl": pal[(k + len(kind)) % 4].to_json(), "seed": ctx.seed * 1000 + 11 * k + len(kind) + lam[1] % 7,
